@@ -57,7 +57,7 @@ MIMES = ["application/octet-stream", "application/octet-stream", "application/js
 NAMES = ["info", "a", "dir/b", "mesh/1:0", "mesh/frag.one", "x.json", "deep/er/name",
          "..dots", "a..b", "sp ace", "transform.json", "dir/c:d:e", "UPPER", "dir/sub/./q",
          "m\u00fcsh/\u00fc\u00df.json", "pct/a%20b%2F", "dir/~tilde", "semi;colon&amp",
-         "x" * 180]
+         "x" * 180, "labels.tsv.gz", "mesh/lh.surf.gz"]
 CONFIGS = [{"flat": f, "gzip": g, "compresslevel": lv}
            for f in (False, True) for g in (False, True) for lv in (1, 9)]
 
@@ -149,15 +149,21 @@ def run_case(case):
     # the dataset directory itself is spelled in several legal ways (spaces, non-ASCII,
     # a literal percent sign) so that the URL forms below have something to decode
     base = os.path.join(top, rnd.choice(["dataset", "dataset", "data set", "d\u00e4ta-\u8133",
-                                         "a%41b", "x+y=z"]))
-    os.mkdir(base)
+                                         "a%41b", "x+y=z", "atlas;v2", "a,b&c", "it's(1)@h"]))
+    if rnd.random() < 0.2:
+        # the dataset directory is reached through a symbolic link
+        real = os.path.join(top, "real-location")
+        os.mkdir(real)
+        os.symlink(real, base)
+    else:
+        os.mkdir(base)
     sentinel = os.path.join(top, "secret")
     with open(sentinel, "wb") as f:
         f.write(b"SENTINEL")
     cfg = case["cfg"]
     kind = case["kind"]
     obs = {"histories": 1, "ops": {}, "audits": 0, "overwrite_refusals": 0,
-           "payloads_over_64KiB": 0,
+           "payloads_over_64KiB": 0, "symlinked_dataset_directory": int(os.path.islink(base)),
            "cross_config_reads": 0, "escape_attempts": 0, "escape_refused": 0,
            "kinds": {kind: 1}, "fs_calls_seen_during_escapes": 0, "gz_files_audited": 0,
            "configs": {f"{kind}:{int(cfg['flat'])}{int(cfg['gzip'])}": 1}}
